@@ -48,7 +48,7 @@ def prepare_without_evaluation(sa, lmin, lmax, error_estimator, tol=0.0):
     sa.single_step = False
 
 
-def install_state(sa, d, xs, levels, lmax0):
+def install_state(sa, d, xs, levels, lmax0, lag=None):
     """Replace the refinement containers by the given state: per dimension sorted coordinates xs[k] and tree levels levels[k].
     lmax, coarsening levels and the adaptive scheme are produced by the real update_coarsening_values / raise_lmax."""
     SD, GO, G, EC, RO, RC = mods()
@@ -64,6 +64,15 @@ def install_state(sa, d, xs, levels, lmax0):
     for k in range(d):
         cont = sa.refinement.get_refinement_container_for_dim(k)
         upd = sa.update_coarsening_values(cont, k)
+        if lag and lag.get(k, 0):
+            # leave lmax `lag` levels behind the deepest level (the state before post-processing): coarsening values are the stale,
+            # non-negative ones of such a state
+            upd = max(0, upd - lag[k])
+            if upd > 0:
+                sa.raise_lmax(k, upd)
+            for o in cont.get_objects():
+                o.coarsening_level = max(0, sa.lmax[k] - max(o.levels))
+            continue
         if upd > 0:
             sa.raise_lmax(k, upd)
             cont.update_values(upd)
